@@ -2725,7 +2725,7 @@ func smallTimeCanFail(c *core.Ctx, b *ob) {
 // the bytes as provided: `{ "a" : 1 }` is written {"a":1} by the standard library under
 // SetEscapeHTML(false) as well.
 func smallMarshalerOutputCompacted(c *core.Ctx, b *ob) {
-	props := []string{"C01"}
+	props := []string{"C01", "C14"}
 	for _, name := range []string{"json.(encoder).encodeRawMessage", "json.(encoder).encodeJSONMarshaler"} {
 		key := "marshaler-output:compacted:" + name
 		fn := c.Lookup(name)
@@ -8619,6 +8619,35 @@ func smallWave30(c *core.Ctx, b *ob) {
 			b.addP(props, core.Violation, key, bad, "the null arm of a map decoder at "+bad+" returns without setting the map to nil, unlike its siblings: a map that holds entries from an earlier decode keeps them when the next document says null, where encoding/json sets it to nil")
 		default:
 			b.addP(props, core.Discharged, key, "-", fmt.Sprintf("%d map decoders, each sets the map to nil on null", n))
+		}
+	}
+	// (j) the generic map encoder reads the data word of the reflect.Values it encodes
+	// ((*iface)(&v).ptr): that word is the value itself for the pointer-shaped results of MapKeys,
+	// MapIndex and the iterator's Key/Value, and the address of the slot for an addressable Value. It
+	// therefore never makes addressable Values of its own (reflect.New(t).Elem() filled with
+	// SetIterKey/SetIterValue): the encoders of pointer-shaped types would dereference one level too
+	// few and write an address
+	{
+		props := []string{"C14", "C01"}
+		key := "encode-map:no-addressable-scratch-values"
+		fn := c.Lookup("json.(encoder).encodeMap")
+		if fn == nil {
+			b.addP(props, core.Undecided, key, "-", "json.(encoder).encodeMap not found")
+		} else {
+			bad := ""
+			for _, f := range append([]*ssa.Function{fn}, fn.AnonFuncs...) {
+				for _, ci := range callsIn(f) {
+					cn := calleeName(ci.Common())
+					if cn == "reflect.New" || strings.HasSuffix(cn, "SetIterKey") || strings.HasSuffix(cn, "SetIterValue") {
+						bad = c.InstrPos(ci) + " (" + cn + ")"
+					}
+				}
+			}
+			if bad != "" {
+				b.addP(props, core.Violation, key, bad, "encodeMap builds or fills an addressable reflect.Value at "+bad+" and then hands its data word to the key/value encoders: for an addressable Value that word is the address of the slot, not the pointer-shaped value, so map[int]*int is written as {\"1\":824634485512} and a nil pointer as a zero struct — on the unsorted path only")
+			} else {
+				b.addP(props, core.Discharged, key, c.FuncPos(fn), "the Values encoded come from the map itself (MapKeys, MapIndex)")
+			}
 		}
 	}
 	// (a) zig-zag decoding shifts the unsigned word: (v >> 1) ^ -(v & 1) with a logical shift. On a
